@@ -82,6 +82,9 @@ def make_frame(rng, saturated=False):
             emodel = ' + '.join([c for c in covs if c != 'W0'] + ['C(W0c)'])
         elif k < 0.4 and len(covs) > 1:
             emodel = ' + '.join(covs[1:])
+        elif k < 0.58:
+            # an exposure model without an intercept is a legitimate patsy formula: its residuals A - pi need not sum to zero
+            emodel = ' + '.join(covs) + ' - 1'
     outcome = rng.choice(['continuous', 'continuous', 'binary'])
     eff = rng.uniform(-1.5, 2.5)
     mu = 1 + np.asarray(lin) + df['A'] * (eff + 0.6 * df[covs[0]])
